@@ -134,6 +134,7 @@ def run(ctx):
         written = set()
         late_build = False
         hist_repr = []
+        pending = None          # the cell written last: looked at (itself or a dependant) soon after
         for step in range(rng.randrange(8, 15)):
             built_inputs = [i for i in wb.inputs() if wb.nodes[i]['addr'] in comp.cell_map]
             if built_inputs and rng.random() < 0.45:
@@ -154,11 +155,15 @@ def run(ctx):
                     break
                 inputs[a] = v
                 written |= {a}
+                pending = a
                 ops.append([1, a, enc_val(v)])
                 hist_repr.append(['set', wb.nodes[a]['addr'], v])
                 impl_trace.append((None, wbgen.snapshot(comp, wb)))
             else:
                 n = rng.randrange(len(wb.nodes))
+                if pending is not None and rng.random() < 0.6:
+                    n = rng.choice([pending] + sorted(wb.descendants(pending)))
+                pending = None
                 addr = wb.nodes[n]['addr']
                 if written and addr not in comp.cell_map and any(
                         n in wb.descendants(a) or n == a for a in written):
